@@ -229,6 +229,15 @@ class Machine:
                 vv[key] = self._call(td)
                 if manual is not None:
                     self._manual_member(name, obj, m, kind, td, vv[key], manual)
+            if kind == "prop":
+                # the setter of the property (where the class or a base defines one)
+                fs = self._func_of(self.world.classes[name], m)
+                if any(sfx == ".set" for sfx, _f in fs):
+                    set_sids = [s for s in self._sids_for(m) if ".set/" in s]
+                    for s in [None] + set_sids:
+                        td = self._member_probe(name, label, m, kind, {s: {"truth": False}} if s else None)
+                        td["op"] = "set"
+                        vv["%s.set:%s" % (m, s or "ok")] = self._call(td)
             # a capture that is only defined when the precondition holds: precondition falsified AND every capture raising
             pres = [s for s in self._sids_for(m) if "/pre" in s]
             snaps = sorted(s for s in self.world.contracts if re.match(r"^[A-Za-z0-9_]+\.%s(\.set)?/snap\d+$" % re.escape(m), s))
